@@ -4,9 +4,10 @@ import Driver.Check
 import Driver.Exact
 import Driver.Literal
 import Driver.Enc
+import Driver.AbsFmt
 open Fpy Fpy.Drv
 
-def handlers : List (String → Option (P String)) := [handleNum, handleCheck, handleExact, handleLiteral, handleEnc]
+def handlers : List (String → Option (P String)) := [handleNum, handleCheck, handleExact, handleLiteral, handleEnc, handleAbsFmt]
 
 def handleLine (line : String) : String :=
   match handleLangLine line with
